@@ -94,6 +94,12 @@ func loadEngine(repo, pkgPath string, overlay map[string][]byte) (*Engine, error
 		e.allowFns["github.com/go-openapi/swag.Convert"+t] = true
 	}
 	e.allowFns["github.com/go-openapi/swag.SplitByFormat"] = true
+	e.allowFns["github.com/go-openapi/swag.JoinByFormat"] = true
+	e.allowFns["github.com/go-openapi/swag.ConvertFloat32"] = true
+	e.allowFns["github.com/go-openapi/swag.ConvertFloat64"] = true
+	for _, t := range []string{"Bool", "Float32", "Float64", "Int8", "Int16", "Int32", "Int64", "Uint8", "Uint16", "Uint32", "Uint64"} {
+		e.allowFns["github.com/go-openapi/swag.Format"+t] = true
+	}
 	return e, nil
 }
 
